@@ -18,7 +18,7 @@ func init() {
 		Title:    "Version and magic-number handshakes agree on both sides",
 		Packages: []string{mutagenPkg, agentPkg, "cmd/mutagen-agent"},
 		Explanation: "(R1) ClientVersionHandshake and ServerVersionHandshake return nil only on paths where receiving and sending both succeeded and the received major, minor and patch were each tested equal to the local VersionMajor/Minor/Patch constants — all three, on both siblings; " +
-			"(R2, layout agreement) sendVersion writes major/minor/patch big-endian at [0:4), [4:8), [8:12) of a 12-byte array and writes the whole array in one Write; receiveVersion fills the whole array with io.ReadFull (a short read is an error) and decodes the same three ranges into (major, minor, patch) in that order; " +
+			"(R2, layout agreement) sendVersion writes major/minor/patch big-endian at [0:4), [4:8), [8:12) of a 12-byte array and writes the whole array in one Write; receiveVersion fills the whole array with io.ReadFull (a short read is an error) and decodes the same three ranges into (major, minor, patch) in that order; neither function touches a package-level variable (the message buffer belongs to the call: handshakes run concurrently); " +
 			"(R3) receiveAndCompareMagicNumber fills all three bytes with io.ReadFull and compares the whole array with the expected one (==); the client expects the server's number and sends the client's, the server does the reverse, and the two numbers differ; " +
 			"(R3 addition) the client, which speaks second, sends its magic number only after the server's was received and matched — a rejected handshake therefore fails on both sides; " +
 			"(R4) agent.connect hands out the stream only after ClientHandshake and ClientVersionHandshake both returned nil and closes it otherwise; the agent's server side (synchronizer, forwarder) performs ServerHandshake then ServerVersionHandshake before serving, returning on any error. " +
@@ -121,7 +121,27 @@ func runC34(c *eng.Ctx) {
 	if n, err := c.P.Named(mutagenPkg, "versionBytes"); err == nil {
 		c.Check("R2", "array-is-12-bytes", n.Obj().Pos(), eng.TypeShort(n.Underlying()) == "[12]byte", "the version message is 12 bytes", eng.TypeShort(n.Underlying()))
 	}
-	c.Floor("R2", 8)
+	// R2 (message buffers are per handshake): neither function touches a
+	// package-level variable. Several handshakes run concurrently in one process
+	// (one per agent connection); a shared scratch buffer lets one handshake's
+	// bytes be overwritten by another's between the read and the comparison.
+	for _, name := range []string{"sendVersion", "receiveVersion"} {
+		if fn := c.MustFunc("R2", mutagenPkg, name); fn != nil {
+			shared := ""
+			eng.EachInstr(fn, func(i ssa.Instruction) {
+				for _, op := range i.Operands(nil) {
+					if op == nil || *op == nil {
+						continue
+					}
+					if g, ok := (*op).(*ssa.Global); ok && g.Pkg == fn.Pkg {
+						shared = g.Name()
+					}
+				}
+			})
+			c.Check("R2", "buffer-is-local:"+name, fn.Pos(), shared == "", "the version message is encoded/decoded in memory owned by this call (no package-level variable of the package is touched)", shared)
+		}
+	}
+	c.Floor("R2", 10)
 
 	// R3.
 	if rc := c.MustFunc("R3", agentPkg, "receiveAndCompareMagicNumber"); rc != nil {
